@@ -185,6 +185,15 @@ class Pipeline:
                         f"Path generated for {file!r}: {new_relative_path} leads through a directory outside of the input directory",
                     )
 
+            # Recursive gathering follows symbolic links to directories: the directory
+            # the source entry really lives in has to lie in the input directory too
+            # (the entry itself may be a symbolic link - it is renamed, not followed)
+            source_parent = (file.input_directory / file.relative_path).parent.resolve()
+            if not source_parent.is_relative_to(file.input_directory):
+                raise InvalidDestinationError(
+                    f"{file!r} lives in {source_parent} which is outside of the input directory",
+                )
+
             try:
                 self.renamer(file.relative_path, new_relative_path)
             except FileExistsError:
